@@ -13,6 +13,9 @@ package rules
 //   C03.post     postProcess: range fold, stable ascending sort of struct fields only, index assignment
 //   C03.minmax   ranges.MinMax / Range.Stop arithmetic
 //   C03.walk     Walk wrappers: one-root / order constants, child iteration
+//   C03.seek     position plumbing: windows, relative/absolute seeks with restore, length / bits left
+//   C03.readers  (borrowed from C02) raw-bits reader and peeks move the position by what they hand out
+//   C03.roots    (borrowed from C12) Parent links lead to the buffer root
 
 import (
 	"go/types"
@@ -59,6 +62,8 @@ func runC03(r *fw.Run, p *fw.Program) {
 	c03Post(r, c)
 	c03MinMax(r, c)
 	c03Walk(r, c)
+	c03Seek(r, c)
+	c03Borrow(r, p)
 }
 
 // fnOrUndecided resolves an anchored function; a missing anchor is an undecided obligation.
